@@ -12,12 +12,46 @@ use serde_json::{json, Value};
 // ------------------------------------------------------------------ Debug text -> leaves
 /// Flattens Rust derived-Debug text: numbers -> {"n":[hi,lo]}, Token(k) -> {"t":k}, identifiers /
 /// strings / bit-flag groups -> {"i":text}; `Some(x)` is x, `None` is nothing; field names are dropped.
+/// How a token spells itself in Debug text, learned from two tokens of known index of a scratch storage: (prefix,
+/// suffix) around the decimal index - `Token(` `)`, `#` ``, ... (None: the index is not printed in decimal; the
+/// `Token...` heuristics below remain)
+fn token_format() -> &'static Option<(Vec<char>, Vec<char>)> {
+    static FMT: std::sync::OnceLock<Option<(Vec<char>, Vec<char>)>> = std::sync::OnceLock::new();
+    FMT.get_or_init(|| {
+        catch(|| {
+            let mut s: rspirv::sr::storage::Storage<u32> = rspirv::sr::storage::Storage::new();
+            let mut d = vec![];
+            for k in 0..=4242u32 { let t = s.append(k); if k == 7 || k == 4242 { d.push(format!("{:?}", t)); } }
+            let (a, b) = (d[0].clone(), d[1].clone());
+            let pa = a.find('7')?; let pb = b.find("4242")?;
+            if pa != pb || a[..pa] != b[..pb] || a[pa + 1..] != b[pb + 4..] { return None; }
+            let prefix: Vec<char> = a[..pa].chars().collect();
+            if prefix.is_empty() || prefix.iter().any(|c| c.is_ascii_digit()) { return None; }
+            Some((prefix, a[pa + 1..].chars().collect()))
+        }).ok().flatten()
+    })
+}
+
 pub fn leaves(dbg: &str) -> Vec<Value> {
     let cs: Vec<char> = dbg.chars().collect();
     let mut out = vec![];
     let mut i = 0;
     while i < cs.len() {
         let c = cs[i];
+        if let Some((pre, suf)) = token_format() {
+            // (the generic-parameter form Token<Type>... and other spellings starting with the word Token: below)
+            let boundary = i == 0 || !(cs[i - 1].is_alphanumeric() || cs[i - 1] == '_') || !(pre[0].is_alphanumeric() || pre[0] == '_');
+            if boundary && cs[i..].starts_with(pre) && cs.get(i + pre.len()).map(|c| c.is_ascii_digit()).unwrap_or(false) {
+                let mut k = i + pre.len();
+                let mut num = String::new();
+                while k < cs.len() && cs[k].is_ascii_digit() { num.push(cs[k]); k += 1; }
+                if cs[k..].starts_with(suf) {
+                    out.push(json!({"t": num.parse::<u64>().unwrap_or(999_999)}));
+                    i = k + suf.len();
+                    continue;
+                }
+            }
+        }
         if c == '"' {
             let mut j = i + 1;
             let mut s = String::new();
